@@ -249,11 +249,17 @@ def closure_rules(model, R):
         if len(parts) != len(want):
             R.bad('WIRING', f, ret, f'{name}: result arity', str(len(want)), str(len(parts)))
             continue
+        if any((isinstance(x, tuple) and x and x[0] == 'unknown') for x in val.values()):
+            R.unknown('WIRING', f, f.node, f'{name}: reduction phases', 'a value is computed by a call the rule does not follow')
+            continue
         R.check(nloop == max(n for _, n in want), 'WIRING', f, f.node, f'{name}: number of reduction phases', str(max(n for _, n in want)), str(nloop))
         for k, (part, (wsort, n)) in enumerate(zip(parts, want)):
             w, v = wrapped(part)
             slot = f'{name}: result {k}' if len(want) > 1 else f'{name}: result'
             good_val = v == ('derive', n, wsort)
+            if v is None or (isinstance(v, tuple) and v and v[0] == 'unknown'):
+                R.unknown('WIRING', f, part, f'{slot} is the {n}-fold derivation of the input', f'value of {src(part)} not tracked: {v}')
+                continue
             R.check(good_val, 'WIRING', f, part, f'{slot} is the {n}-fold derivation of the input',
                     f'{"closure" if n == 2 else "derivation"} ({wsort}-sorted accumulator)', f'{src(part)}: {v}',
                     extra={'consequence': 'a value consumed by a later scan is 0 when returned'} if v == ('consumed',) else None)
@@ -325,7 +331,7 @@ def relation_new(model, R):
     R.check(ok, 'WIRING', f, xs[0] if xs else f.node, 'first family = the given rows', f'x = X.Tuple.frombools({xbools})', src(xs[0].value) if xs else '')
     ok = False
     if len(ys) == 1 and isinstance(ys[0].value, ast.Call) and chain(ys[0].value.func) == ['Y', 'Tuple', 'frombools'] and len(ys[0].value.args) == 1:
-        a = ys[0].value.args[0]
+        a = env.expand(ys[0].value.args[0], skip=('x', 'y', 'X', 'Y'))
         if isinstance(a, ast.Call) and name_is(a.func, 'zip') and len(a.args) == 1 and isinstance(a.args[0], ast.Starred):
             inner = src(a.args[0].value)
             ok = inner in ('x.bools()', xbools)
@@ -334,8 +340,8 @@ def relation_new(model, R):
     # tuple and crossing
     news = [s for s in f.body if isinstance(s, ast.Assign) and isinstance(s.value, ast.Call) and '__new__' in src(s.value.func)]
     order = None
-    if news and isinstance(news[0].value.args[-1], ast.Tuple):
-        order = [src(e) for e in news[0].value.args[-1].elts]
+    if news and isinstance(env.expand(news[0].value.args[-1], skip=('x', 'y', 'X', 'Y')), ast.Tuple):
+        order = [src(e) for e in env.expand(news[0].value.args[-1], skip=('x', 'y', 'X', 'Y')).elts]
     R.check(order == ['x', 'y'], 'WIRING', f, news[0] if news else f.node, 'relation is the pair (first family, second family)', "(x, y)", str(order))
     calls = [n for n in walk(f.body) if isinstance(n, ast.Call) and isinstance(n.func, ast.Attribute) and n.func.attr == '_pair_with']
     got = sorted((src(c.func.value), const(c.args[1]) if len(c.args) > 1 else None, src(c.args[2]) if len(c.args) > 2 else None) for c in calls)
